@@ -27,7 +27,25 @@ var idRe = regexp.MustCompile(`\\?"id\\?":\\?"[^"\\]*\\?"`)
 var ptrRe = regexp.MustCompile(`\(0x[0-9a-f]{6,}\)`)
 
 func stripIDs(s string) string {
-	return ptrRe.ReplaceAllString(idRe.ReplaceAllString(s, `"id":"X"`), "(0xPTR)")
+	return sortMessageParts(ptrRe.ReplaceAllString(idRe.ReplaceAllString(s, `"id":"X"`), "(0xPTR)"))
+}
+
+var msgRe = regexp.MustCompile(`"message":"((?:[^"\\]|\\.)*)"`)
+
+// sortMessageParts orders the "; "-separated parts of a merged goa error message: the generated validation code
+// visits the entries of a map in Go's randomised iteration order, so the ORDER of the parts differs from run to
+// run (concurrent or not) while their multiset is the observation.
+func sortMessageParts(s string) string {
+	sortParts := func(m string) string {
+		parts := strings.Split(m, "; ")
+		sort.Strings(parts)
+		return strings.Join(parts, "; ")
+	}
+	s = msgRe.ReplaceAllStringFunc(s, func(m string) string {
+		sub := msgRe.FindStringSubmatch(m)
+		return `"message":"` + sortParts(sub[1]) + `"`
+	})
+	return s
 }
 
 // observable renders everything a client/service could observe of an exchange, without per-run noise.
@@ -60,7 +78,9 @@ func observable(ex *rt.Exchange) map[string]string {
 	if ex.ClientOut != nil {
 		o["client_result"] = j(ex.ClientOut.Result)
 		if e := ex.ClientOut.Err; e != nil {
-			o["client_err"] = e.GoType + "|" + e.Name + "|" + stripIDs(e.Message) + "|" + j(e.Tree)
+			cm := strings.Split(stripIDs(e.Message), "; ")
+			sort.Strings(cm)
+			o["client_err"] = e.GoType + "|" + e.Name + "|" + strings.Join(cm, "; ") + "|" + j(e.Tree)
 		}
 	}
 	if ex.Panic != "" {
